@@ -411,7 +411,7 @@ def iter_to_index_loop(s, rewrites=None):
     """D15 (plain form): `for x in v.iter() { BODY }` over a slice/Vec `v` becomes
         let mut idx_x: usize = 0; while idx_x < v.len() { let x = &v[idx_x]; BODY idx_x += 1; }
     under the same condition (no `continue` in BODY)."""
-    rx = re.compile(r'^([ \t]*)for (\w+) in (\w+)\.iter\(\) \{', re.M)
+    rx = re.compile(r'^([ \t]*)for (\w+) in ((?:self\.)?\w+(?:\.\w+)*)\.iter\(\) \{', re.M)
     while True:
         m = rx.search(s)
         if not m:
